@@ -222,17 +222,17 @@ _ADD = {
  'C02': 'Lists holding binary packets are also built from packet objects already encoded for other channels (6 encode histories); bodies around the limit for 9 other configured values of Payload.max_decode_packets; payloads built / decoded right after an encode() or decode() that failed. One Payload object decoded twice (every first string, also failing ones, x every second list): the second result is that of the second string alone. A binary packet for each of the 256 leading bytes, alone and between two other packets. Attachments of 3071..65537 bytes. Payloads with backslashes and escaped / real newlines.',
  'C03': 'Variants include backlogs of 17..40 messages (also with a heartbeat PING in the middle, and while the session is closing), two overlapping opens with a slow connect handler, an upgrade request whose socket is gone before the WebSocket accept, and a server write that fails in the middle of a batch; a binary message written to a WebSocket as a base64 text frame is a violation. Two long-polls of one session waiting when a burst is queued (Queue.empty() / qsize() are scheduling points of the virtual queue). A batch whose first WebSocket write is parked while one more message is sent (back-pressure variants).',
  'C04': 'Also: message handlers that raise (ordinary exception, TypeError) or disconnect their own session in the middle of a body, bodies arriving while the session is in the middle of its own close, empty binary frames. Bodies preceded by an ordinary body of the same session. Two-packet bodies delivered by the ASGI gateway as piece, empty piece, piece.',
- 'C05': 'Disconnect handlers also touch other sessions (kick a partner, send to a stale id), raise from a legacy one-argument handler, or follow a first open rejected by a TypeError; a write that fails is an end cause of its own (reason of the transport class); earlier server generations (a session that came and went, disconnect() on an empty table) precede the observed session; a disconnect() call that raises, or returns without having ended every session, is a violation. Line-granular preemption (sys.settrace) inside Socket.close for racing closers. The gateway cancelling a pending long-poll is an end cause of the transport class (asyncio); asyncio disconnect() of everybody while the first session has no poll waiting ends the bystander at once. End causes arriving while the session is between probe and UPGRADE of an upgrade handshake.',
- 'C06': 'Histories also start after / consist of an upgrade attempt that died before the WebSocket accept or failed right after its probe; two upgrade sockets opened on one session before either handshake finished (every interleaving); on a polling-only server every shape of the upgrade request is followed by the full handshake; a directly opened WebSocket is raced against a poll issued on receipt of its OPEN packet with line-granular scheduling (2 deviations). A second session upgrades / opens over WebSocket while a write to a first, upgraded session is parked inside its socket (back-pressure). Pre-histories in which the earlier attempt ended by the peer hanging up after its probe.',
+ 'C05': 'Disconnect handlers also touch other sessions (kick a partner, send to a stale id), raise from a legacy one-argument handler, or follow a first open rejected by a TypeError; a write that fails is an end cause of its own (reason of the transport class); earlier server generations (a session that came and went, disconnect() on an empty table) precede the observed session; a disconnect() call that raises, or returns without having ended every session, is a violation. Line-granular preemption (sys.settrace) inside Socket.close for racing closers. The gateway cancelling a pending long-poll is an end cause of the transport class (asyncio); asyncio disconnect() of everybody while the first session has no poll waiting ends the bystander at once. End causes arriving while the session is between probe and UPGRADE of an upgrade handshake. On the asyncio server the gateway also cancels the POST that carried the CLOSE packet while the coroutine disconnect handler is suspended: later requests for the session must be refused.',
+ 'C06': 'Histories also start after / consist of an upgrade attempt that died before the WebSocket accept or failed right after its probe; two upgrade sockets opened on one session before either handshake finished (every interleaving); on a polling-only server every shape of the upgrade request is followed by the full handshake; a directly opened WebSocket is raced against a poll issued on receipt of its OPEN packet with line-granular scheduling (2 deviations). A second session upgrades / opens over WebSocket while a write to a first, upgraded session is parked inside its socket (back-pressure). Pre-histories in which the earlier attempt ended by the peer hanging up after its probe. On a server that allows the upgrade the full handshake must complete with Connection: keep-alive, Upgrade / Upgrade, keep-alive and Upgrade: WebSocket.',
  'C07': 'Also: upgrades straddling the first PING, peers that talk but never PONG, peers stalled for ever between probe and UPGRADE, WebSocket opens whose accept failed, crowds of 3 / 5 silent sessions, sessions that are a later generation of the server (after a closed session, a rejected open, a disconnect() of everybody); a deep subset with free switching, two preemptions and line-granular scheduling inside _send_ping. A PONG that reaches the server twice (half an interval apart) restarts an interval of its own; the peer that answers every PING it is sent stays live. The quick grid has a cell with a grace period.',
- 'C08': 'Early-reconnect scenarios (connect() again 3 s after the disconnect event; the second connection must last until its own read timeout and take nothing over from the first OPEN packet); write-fault scenarios (the k-th write of a batch fails once); a thread blocked on a real lock is reported as a deadlock. Paced servers (3..5 PINGs spaced ping_interval + 3/8 s apart, then CLOSE): the client must hear the server out. OPEN packets announcing 1500 / 500 ms. A legacy no-argument disconnect handler behind a pass-through decorator. The threaded client with a timeout of its own in websocket_extra_options.',
+ 'C08': 'Early-reconnect scenarios (connect() again 3 s after the disconnect event; the second connection must last until its own read timeout and take nothing over from the first OPEN packet); write-fault scenarios (the k-th write of a batch fails once); a thread blocked on a real lock is reported as a deadlock. Paced servers (3..5 PINGs spaced ping_interval + 3/8 s apart, then CLOSE): the client must hear the server out. OPEN packets announcing 1500 / 500 ms. A legacy no-argument disconnect handler behind a pass-through decorator. The threaded client with a timeout of its own in websocket_extra_options. Connect answers that end the session in the response that opens it (OPEN + CLOSE, OPEN + MESSAGE + CLOSE), also with a suspending and a legacy disconnect handler.',
  'C09': 'Also: writes that block inside the socket while frames keep arriving; the k-th write of a flush failing once (the wire must be a prefix of what was sent); sends made from inside the connect handler; connect() called again on a connected client. Caller query strings with blank values, value-less flags, repeated keys and latin-1 / reserved escapes are compared decoded byte for byte. Steady heartbeats of 3..6 cycles, each 3/8 s longer than ping_interval. Upgrade connections failing with OSError(no route) and TimeoutError (threaded client). An empty binary MESSAGE among the pushes. The caller order of transports decides the first contact. PING data that decode to numbers; PING and PONG data compared as decoded values.',
- 'C10': 'The same conversations also run over a virtual network with a one-way delay (1/16..7/16 s; delay line in the combined world) with heartbeat settings that put PINGs inside the handshake and the upgrade; one message of each of 13 payload shapes in each direction; bursts followed by a hang-up; a server write failing in the middle of a burst; greetings sent from the connect handler; differently configured servers constructed earlier in the process. A conversation in which the application calls connect() again on the connected client. The payload zoo includes a list of 200 numbers, a dict of 150 keys and a 300-character text. Conversations with a 6 s heartbeat idling two cycles.',
+ 'C10': 'The same conversations also run over a virtual network with a one-way delay (1/16..7/16 s; delay line in the combined world) with heartbeat settings that put PINGs inside the handshake and the upgrade; one message of each of 13 payload shapes in each direction; bursts followed by a hang-up; a server write failing in the middle of a burst; greetings sent from the connect handler; differently configured servers constructed earlier in the process. A conversation in which the application calls connect() again on the connected client. The payload zoo includes a list of 200 numbers, a dict of 150 keys and a 300-character text. Conversations with a 6 s heartbeat idling two cycles. A payload with infinite floats in the zoo.',
  'C11': 'A schedule search over two / three simultaneous opens with per-client handler duration and verdict; after each accepted open an open over the other transport; a cookie attribute callable that depends on the request and one that returns False; connect handlers raising TypeError; at the moment a 401 is handed to the gateway the rejected id must already be gone (observer inside the gateway callback). Histories of 1..3 rejections on one server (compressible / small / False values x Accept-Encoding none / gzip / deflate): every 401 decodes by its own headers to the value of its own handler call. Cookie kind x cors_credentials x origin policy {default, *, disabled} x outcome. The leading 2 / 3 / 4 / 7 options given by position in the documented order. An open after two sessions ended (ordinary / legacy / raising disconnect handlers). Connect outcomes 1 and 1.0. Connect outcomes that cannot be serialised and a 150-character refusal; the close reason of refused asyncio WebSocket opens is compared.',
- 'C12': 'Also: allow_upgrades=False; session kinds "closing" (disconnect handler never returns), "suffixed" / "prefix" (a live sid plus / minus one character); header kind Upgrade: h2c at the quick tier; POSTs to a closing session must not produce events. Header kind with the upgrade headers in another letter case. The transports option given as a bare string; transport names that are proper substrings of the real ones. Refused requests naming a session whose PING is overdue and unnoticed.',
+ 'C12': 'Also: allow_upgrades=False; session kinds "closing" (disconnect handler never returns), "suffixed" / "prefix" (a live sid plus / minus one character); header kind Upgrade: h2c at the quick tier; POSTs to a closing session must not produce events. Header kind with the upgrade headers in another letter case. The transports option given as a bare string; transport names that are proper substrings of the real ones. Refused requests naming a session whose PING is overdue and unnoticed. A query with the EIO parameter given twice (EIO=4&EIO=3).',
  'C13': 'Request pairs on one server (forwarded headers or an allowed / case-variant / foreign Origin first) judged on the second request alone and differentially against a fresh server; a state with two sessions opened and used through two hosts in which every (session, host, origin, kind) request is judged on its own; a pending poll overlapped by a POST of the same session with another allowed Origin. Origins mixing the gateway scheme with the forwarded host and the forwarded scheme with the gateway host. A callable policy that raises for some origins: those requests are not admitted, get no grant and have no effect.',
  'C14': 'Also: POSTs around the limit while the session is closing, in both orders; oversize frames whose close frame cannot be written (the session must be dead a quarter second later); form bodies; limits of 1..5 bytes. On the threaded server also with an input stream whose first read returns half of what was asked: the bytes taken from the stream stay within min(declared, limit). The limit given as the third positional constructor option. Bodies of two-byte characters.',
- 'C15': 'The alphabet includes a full batch of 16 sends; a second search root is the state after a completed upgrade; compressed response paths (8-byte threshold); an overlap pass (every probe while the disconnect handler of an ending session is asleep) and a farewell pass (a disconnect handler that yields and then sends); blocked-call signatures carry the queue-reader state so that known findings name exactly the (server, reader) pairs that block on the pinned tree. Accept-Encoding tokens in other letter cases, with parameters and after unknown codings. A failing-application pass: every probe on worlds whose message handler raises and whose disconnect handler raises TypeError or is a legacy one-argument handler that raises. A relay pass: an application that sends back what it receives, after a client posted text that decodes to a lone surrogate (known finding). A flood pass (1100 sends to a session in four states must return); probes without Host but with X-Forwarded headers; the relay pass also uses a JSON object holding a lone surrogate.',
+ 'C15': 'The alphabet includes a full batch of 16 sends; a second search root is the state after a completed upgrade; compressed response paths (8-byte threshold); an overlap pass (every probe while the disconnect handler of an ending session is asleep) and a farewell pass (a disconnect handler that yields and then sends); blocked-call signatures carry the queue-reader state so that known findings name exactly the (server, reader) pairs that block on the pinned tree. Accept-Encoding tokens in other letter cases, with parameters and after unknown codings. A failing-application pass: every probe on worlds whose message handler raises and whose disconnect handler raises TypeError or is a legacy one-argument handler that raises. A relay pass: an application that sends back what it receives, after a client posted text that decodes to a lone surrogate (known finding). A flood pass (1100 sends to a session in four states must return); probes without Host but with X-Forwarded headers; the relay pass also uses a JSON object holding a lone surrogate. Accept-Encoding headers with malformed quality values on an open and on a poll.',
  'C16': 'A schedule search (free switching, <= 2 preemptions, scheduling points between creating, entering and leaving the session() context) over concurrent session() / save_session() / get_session(); WebSocket opens whose accept fails; histories after which the oldest session keeps a healthy client while the others fall silent; sessions coming and going in the middle of a monitor sweep. A lagging healthy client (ping_interval 1 s, ping_timeout 3 s, every PONG 1.5 s late over eight cycles) must survive while the others are reaped. Binary sends in the second pass.',
  'C17': 'Also: a successor test at every power-of-two boundary of the counter; sibling instances (A issues an id, another instance issues 2^24-1, the next id of A must differ); handshakes presenting the cookie of an ended session or a forged one; accepted and rejected handshakes interleaved under a constant source. Handshake patterns with a shutdown() of the server in the middle.',
  'C18': 'The alphabet includes an upgrade attempt dropped before the accept and a server write that fails; sessions that either server has dropped for a timeout-class reason leave the comparison; histories in which two suspended handlers wake at the same instant are pruned from the sleepy pass. A silence pass: histories over a smaller alphabet with 20 s / 41 s waits, each followed by every client falling silent for ping_interval + 3 x ping_timeout, after which both servers must have dropped every session with the same events; a history in which exactly one server has dropped a silent session is compared but not extended. The alphabet includes disconnect() of everybody (while at most one session has not been ended by its client).',
